@@ -502,7 +502,7 @@ func genEntries(rng *rand.Rand, cfg *sessCfg, pi *peerInfo) (es []entry, shape s
 type ddPlan struct {
 	Shape string        `json:"shape"` // data | padunk-inner | padunk-outer | padvar | wrongtype | zerolen | claimed | nonminimal | giant | mixed
 	N     int           `json:"n,omitempty"`
-	Stop  string        `json:"stop"`                  // full | data-exact | data-short1 | raw-short1 | raw-exact | half | one | none
+	Stop  string        `json:"stop"`                  // full | data-exact | data-short1 | raw-short1 | raw-exact | half | one | none | last-frame-half
 	End   string        `json:"end"`                   // wait | close | reset
 	Frag  int           `json:"frag,omitempty"`        // 0: one write per message; >0: re-cut the byte stream every Frag bytes; <0 random cuts
 	Total time.Duration `json:"spread_over,omitempty"` // >0: the writes are spread evenly over this much virtual time
@@ -585,6 +585,22 @@ func (d *ddPlan) build(numBytes uint64) []write {
 			}
 			add(dialDataFrame(n), n)
 		}
+	case "last-frame-half":
+		// whole data frames that would add up to exactly the amount asked for - but of the LAST frame
+		// only the header and half of the body are sent (then the plan's End: close = FIN)
+		for data < nb && len(msgs) < maxMsgs {
+			n := size()
+			if data+n > nb {
+				n = nb - data
+			}
+			if data+n >= nb {
+				f := dialDataFrame(n)
+				add(f[:len(f)/2+2], 0)
+				data = nb
+				break
+			}
+			add(dialDataFrame(n), n)
+		}
 	case "raw-short1", "raw-exact", "half":
 		target := nb - 1
 		if d.Stop == "raw-exact" {
@@ -656,7 +672,7 @@ func genDD(rng *rand.Rand) ddPlan {
 		d.Stop = pick(rng, []string{"full", "data-exact"})
 	case r < 34: // short by one byte (of data, or on the wire), then close / stall / reset
 		d.N = pick(rng, []int{4000, 1000, 8186, 100, 300})
-		d.Stop = pick(rng, []string{"data-short1", "raw-short1", "raw-short1", "raw-exact"})
+		d.Stop = pick(rng, []string{"data-short1", "raw-short1", "raw-short1", "raw-exact", "last-frame-half"})
 		d.End = pick(rng, []string{"wait", "close", "reset"})
 	case r < 44: // stops early
 		d.N = pick(rng, []int{4000, 500, 8186})
